@@ -173,30 +173,11 @@ def fix_f22():
 
 # F20 (design_span_loss counted att_in twice) and F21 (automatic VOA above the head-room) were repaired in /repo
 # (13a35c31, 99151283): their streams ('att_in', 'voa_margin') stay as regression streams without a matcher.
-@contextlib.contextmanager
-def fix_f23():
-    """an estimate made without a span input power (target_power, add_fiber_padding) is not cached as the fibre's
-    estimated_gain: the cached value is the one made at the power of the amplifier walk"""
-    import gnpy.core.network as N
-    from gnpy.core import elements as E
-    orig = N.estimate_raman_gain
-
-    def estimate_raman_gain(node, equipment, power_dbm):
-        fresh = isinstance(node, E.RamanFiber) and power_dbm is None and not hasattr(node, 'estimated_gain')
-        g = orig(node, equipment, power_dbm)
-        if fresh and hasattr(node, 'estimated_gain'):
-            del node.estimated_gain
-        return g
-    N.estimate_raman_gain = estimate_raman_gain
-    try:
-        yield
-    finally:
-        N.estimate_raman_gain = orig
-
-
 # F8 (single design band dropped) and F19 (lumped losses not exported) were repaired too (37844749, 562b868b):
 # the 'lumped' stream and the multiband example stay as regressions that must pass.
-FIX_CTX = {'F22': fix_f22, 'F23': fix_f23}
+# F15 / F23 (Raman estimate without span power: TypeError, then cached at the wrong power) were repaired as well
+# (36fd5b85, d3e2700d).
+FIX_CTX = {'F22': fix_f22}
 
 
 # ------------------------------------------------------------------ driving the implementation
@@ -252,7 +233,9 @@ def roundtrip(case, fixes=(), rounds=None, want_obs=False, propagate_pair=None):
                 kw = {}
                 if propagate_pair:
                     kw = {'source': propagate_pair[0], 'destination': propagate_pair[1]}
-                net, req, ref = designed_network(eq, net, **kw)
+                with c08.RefEstimates() as refest:
+                    net, req, ref = designed_network(eq, net, **kw)
+                ob['ref_gain'] = dict(refest.seen)
                 if want_obs:
                     ob['after'], _ = c08.extract_lines(net)
                     ob['rgain'] = {n.uid: float(getattr(n, 'estimated_gain', 0.0)) for n in net.nodes()
@@ -348,7 +331,7 @@ def attribute(case, pair):
     import itertools
     cands = ['F7'] if case['span'].get('EOL') else []
     if any(e['k'] == 'R' for ln in case.get('lines', []) for e in ln['els']):
-        cands += ['F22', 'F23']
+        cands.append('F22')
     for size in (1, 2):
         for sub in itertools.combinations(cands, size):
             r = roundtrip(case, fixes=sub, propagate_pair=pair)
@@ -403,7 +386,7 @@ def line_amp_term(case, ob, ln, cfg):
     nch = int((si.get('f_max', 195.1e12) - si.get('f_min', 191.3e12)) // 50e9)
     ptot = pref + 10 * math.log10(nch)
     order_flag = True
-    rg1 = [(u, round(g, 2)) for u, g in ob['rgain'].items()]
+    rg1 = sorted(ob.get('ref_gain', {}).items())
     term = (f'run_amps ({c08.cfg_term(cfg, rg1)}) ({s}) {listlit(lib)} {listlit(sel)} {listlit(rg)} {listlit(ops)} '
             f'{qlit(d0)} {qlit(ptot)} ({c08.line_term(ln, order_flag)})')
     return term, amps
@@ -564,7 +547,6 @@ def mk_matcher(cause):
 MATCHERS = {
     'F7-eol-readded': mk_matcher('F7'),
     'F22-raman-estimate-ignores-out-voa': mk_matcher('F22'),
-    'F23-raman-estimate-cached-at-first-call': mk_matcher('F23'),
 }
 
 
@@ -623,7 +605,8 @@ def run(ctx):
         names = sorted(case['roadms'])
         pair = None
         total_km = sum(e['len'] for ln in case['lines'] for e in ln['els'] if e['k'] in 'FR')
-        if rng.random() < 0.2 and len(names) >= 2 and total_km < 1500:
+        slow_nli = bool(case.get('simparams')) and case['simparams'].get('nli_params', {}).get('method', '').lower().startswith('ggn')
+        if rng.random() < 0.2 and len(names) >= 2 and total_km < 1500 and not slow_nli:     # GGN propagation takes minutes
             a, b = rng.sample(names, 2)
             pair = ('trx ' + a.split(' ', 1)[1], 'trx ' + b.split(' ', 1)[1])
         res = roundtrip(case, want_obs=True, propagate_pair=pair)
